@@ -364,14 +364,12 @@ HelperVal(h) == BlockEval("gen", h.par, <<>>, <<h.len, 1, 1>>, <<>>)
 NpVal(s, R) ==
   LET k == R.np.kind
   IN CASE k = "ew0" -> s.val                       \* same samples (container / concatenate of a split)
-       [] k = "mix" ->                             \* every component q of the stack
-            [l \in Idx(R.osh) |->
-               BlockEval("mix", Par(R.np.par.f, <<l[3], 1, 0, 1, 1>>, <<>>), <<s.val>>,
-                         <<R.osh[1], R.osh[2], 1>>, <<>>)[<<l[1], l[2], 0>>]]
+       [] k = "mix" ->                             \* component q from the two polarisations
+            [l \in Idx(R.osh) |-> T(R.np.par.f, <<l[3]>>, <<s.val[<<l[1], l[2], 0>>], s.val[<<l[1], l[2], 1>>]>>)]
        [] k = "cdd" ->                             \* channel c against its own chirp
-            [l \in Idx(R.osh) |->
-               BlockEval("col", Par("cdd", <<1, s.sh[1], l[2] + 1, 1>>, <<<<>>>>),
-                         <<s.val, HelperVal(R.hl[l[2] + 1])>>, <<R.osh[1], 1, R.osh[3]>>, <<>>)[<<l[1], 0, l[3]>>]]
+            LET hv == [c \in 1..Len(R.hl) |-> HelperVal(R.hl[c])]
+            IN [l \in Idx(R.osh) |->
+                  T("cdd", <<l[1]>>, Line(s.val, l, 1, s.sh[1]) \o Line(hv[l[2] + 1], <<0, 0, 0>>, 1, s.sh[1]))]
        [] k = "incoh" -> [l \in Idx(R.osh) |-> s.val[<<l[1] + R.np.par.i[l[2] + 1], l[2], l[3]>>]]
        [] OTHER -> BlockEval(k, R.np.par, <<s.val>> \o [j \in 1..Len(R.hl) |-> HelperVal(R.hl[j])], R.osh, <<>>)
 
@@ -395,7 +393,7 @@ Apply(S, R, name) ==
   LET s == S.sig
       val == NpVal(s, R)
   IN IF s.back = "np"
-     THEN [sig |-> [s EXCEPT !.sh = R.osh, !.val = val, !.meta = R.meta], g |-> S.g]
+     THEN [sig |-> [s EXCEPT !.sh = R.osh, !.val = val, !.data = val, !.meta = R.meta], g |-> S.g]
      ELSE LET H == AddHelpers(S.g, R.hl, 1, <<>>)
               g1 == H.g
               base == Len(g1)
@@ -446,7 +444,7 @@ Applies(s, o) ==
        [] op = "incoh_dd" -> /\ cls # "Signal" /\ (s.sh[2] = 1 => Arg(o, 1) = Arg(o, 2))
                              /\ s.sh[1] - (PMax(Arg(o, 1), Arg(o, 2)) - PMin(0, PMin(Arg(o, 1), Arg(o, 2)))) >= 1
        [] op = "splitcat" -> Arg(o, 2) >= 1 /\ Arg(o, 2) < s.sh[Arg(o, 1)]
-       [] op = "fft_axis" -> s.sh[Arg(o, 1)] >= 1
+       [] op = "fft_axis" -> s.sh[Arg(o, 1)] >= 1 /\ cls \in {"Signal", "BasebandSignal", "DualPolarizationSignal"}
        [] op = "stft" -> IsBaseband(cls) /\ s.sh[1] >= Arg(o, 1)
        [] op = "istft" -> IsBaseband(cls) /\ (s.sh[2] % Arg(o, 1)) = 0 /\ (s.meta.per % Arg(o, 1)) = 0
        [] op = "rechunk" -> TRUE
@@ -507,10 +505,10 @@ RunPlan(S, o, step) ==
 ToDask(S) ==
   LET s == S.sig
   IN IF s.back = "dask" THEN S
-     ELSE [sig |-> [s EXCEPT !.back = "dask", !.ch = Single(s.sh),
+     ELSE [sig |-> [s EXCEPT !.back = "dask", !.ch = Single(s.sh), !.data = <<>>,
                              !.blk = [b \in BlockSet(Single(s.sh)) |-> Len(S.g) + 1]],
            g |-> Append(S.g, [key |-> Key("array", <<Len(S.g) + 1>>), kind |-> "src", par |-> NoPar,
-                              deps |-> <<>>, osh |-> s.sh, lit |-> s.val, den |-> s.val])]
+                              deps |-> <<>>, osh |-> s.sh, lit |-> s.data, den |-> s.data])]
 Rechunk(S, k) ==
   LET S1 == ToDask(S)
       tgt == RechunkTarget(S1.sig, k)
@@ -522,10 +520,11 @@ Rechunk(S, k) ==
 RootVal(sh) == [l \in Idx(sh) |-> X(l)]
 MkRoot(r) ==
   LET val == RootVal(r.sh)
-      meta == [cls |-> r.cls, per |-> 4, t0 |-> 0, clo |-> 0]
+      meta == [cls |-> r.cls, per |-> 4, t0 |-> 0, clo |-> 0, root |-> r]
   IN IF r.back = "np"
-     THEN [sig |-> [sh |-> r.sh, back |-> "np", ch |-> <<>>, blk |-> <<>>, val |-> val, meta |-> meta], g |-> <<>>]
-     ELSE [sig |-> [sh |-> r.sh, back |-> "dask", ch |-> r.ch,
+     THEN [sig |-> [sh |-> r.sh, back |-> "np", ch |-> <<>>, blk |-> <<>>, val |-> val, data |-> val, meta |-> meta],
+           g |-> <<>>]
+     ELSE [sig |-> [sh |-> r.sh, back |-> "dask", ch |-> r.ch, data |-> <<>>,
                     blk |-> [b \in BlockSet(r.ch) |-> Rank(r.ch, b)], val |-> val, meta |-> meta],
            \* sentinel input blocks: one task per block, counting its execution
            g |-> [n \in 1..NB(r.ch) |->
@@ -564,7 +563,7 @@ Transform(o) ==
      IN IF P.ok
         THEN /\ Len(P.S.g) <= MaxTasks
              /\ IF o.op \in NumpyOps /\ sig.back = "dask"
-                THEN sig' = [P.S.sig EXCEPT !.back = "np", !.ch = <<>>, !.blk = <<>>]
+                THEN sig' = [P.S.sig EXCEPT !.back = "np", !.ch = <<>>, !.blk = <<>>, !.data = P.S.sig.val]
                 ELSE sig' = P.S.sig
              /\ graph' = P.S.g
              /\ IF o.op \in EagerOps /\ sig.back = "dask"
@@ -590,6 +589,7 @@ Container(o) ==
 \* compute / persist / np.asarray run the tasks the signal needs.  Which of the three it is
 \* only matters when the run ends (FinishRun), so the runs are explored once.
 StartRun(sch) ==
+  /\ sch # "sync"
   /\ phase.st = "build" /\ NRuns < MaxRuns
   /\ sig.back = "dask"
   /\ phase' = [st |-> "run", mode |-> "", sch |-> sch, needed |-> Anc(graph, BlockTasks(sig))]
@@ -604,48 +604,70 @@ RunNumpy(mode) ==
   /\ UNCHANGED <<sig, graph, phase, done, store, nexec, choices>>
 
 ReadySet == {t \in phase.needed \ done : Range(graph[t].deps) \subseteq done}
-Exec(t) == LET r == graph[t]
-           IN BlockEval(r.kind, r.par, [j \in 1..Len(r.deps) |-> store[graph[r.deps[j]].key]], r.osh, r.lit)
+ExecIn(st, t) == LET r == graph[t]
+                 IN BlockEval(r.kind, r.par, [j \in 1..Len(r.deps) |-> st[graph[r.deps[j]].key]], r.osh, r.lit)
 Put(f, k, v) == IF k \in DOMAIN f THEN [f EXCEPT ![k] = v] ELSE (k :> v) @@ f
 RunTask(t) ==
   /\ phase.st = "run"
   /\ t \in ReadySet
-  /\ (phase.sch = "sync" => t = SetMin(ReadySet))
-  /\ store' = Put(store, graph[t].key, Exec(t))
+  /\ store' = Put(store, graph[t].key, ExecIn(store, t))
   /\ done' = done \cup {t}
   /\ nexec' = nexec + 1
   /\ choices' = Append(choices, Cardinality({r \in ReadySet : r < t}))
   /\ UNCHANGED <<sig, graph, phase, hist>>
 
 \* the samples found in the locations of the signal's blocks
-Assembled == [l \in Idx(sig.sh) |->
-                LET b == <<ChunkOf(sig.ch[1], l[1]), ChunkOf(sig.ch[2], l[2]), ChunkOf(sig.ch[3], l[3])>>
-                IN store[graph[sig.blk[b]].key][V3Sub(l, BOff(sig.ch, b))]]
-FinishRun(mode) ==
-  /\ phase.st = "run"
-  /\ phase.needed \subseteq done
-  /\ phase' = Idle
+AssembledIn(st) ==
+  [l \in Idx(sig.sh) |->
+     LET b == <<ChunkOf(sig.ch[1], l[1]), ChunkOf(sig.ch[2], l[2]), ChunkOf(sig.ch[3], l[3])>>
+     IN st[graph[sig.blk[b]].key][V3Sub(l, BOff(sig.ch, b))]]
+\* the end of a run with the locations st: compute -> NumPy-backed signal holding the samples;
+\* persist -> same chunks and keys, the tasks now hold data; np.asarray -> the signal stays lazy
+EndRun(mode, sch, st, needed, chs) ==
   /\ (CASE mode = "compute" ->
-            /\ sig' = [sig EXCEPT !.back = "np", !.ch = <<>>, !.blk = <<>>, !.val = Assembled]
+            /\ sig' = [sig EXCEPT !.back = "np", !.ch = <<>>, !.blk = <<>>, !.data = AssembledIn(st)]
             /\ graph' = graph
-       [] mode = "persist" ->     \* same keys, now holding data
+       [] mode = "persist" ->
             LET base == Len(graph)
                 lit(n) == LET t == sig.blk[UnRank(sig.ch, n)]
                           IN [key |-> graph[t].key, kind |-> "src", par |-> NoPar, deps |-> <<>>,
-                              osh |-> graph[t].osh, lit |-> store[graph[t].key], den |-> store[graph[t].key]]
+                              osh |-> graph[t].osh, lit |-> st[graph[t].key], den |-> st[graph[t].key]]
             IN /\ graph' = graph \o [n \in 1..NB(sig.ch) |-> lit(n)]
                /\ sig' = [sig EXCEPT !.blk = [b \in BlockSet(sig.ch) |-> base + Rank(sig.ch, b)]]
-       [] OTHER ->                      \* np.asarray(sig): the signal itself stays lazy
+       [] OTHER ->
             /\ UNCHANGED <<sig, graph>>)
-  /\ hist' = Append(hist, [kind |-> "run", op |-> mode, a |-> <<>>, refused |-> FALSE, sch |-> phase.sch,
-                           pre |-> Summary(sig), post |-> Summary(sig'), ntasks |-> Cardinality(phase.needed),
-                           choices |-> choices])
+  /\ hist' = Append(hist, [kind |-> "run", op |-> mode, a |-> <<>>, refused |-> FALSE, sch |-> sch,
+                           pre |-> Summary(sig), post |-> Summary(sig'), ntasks |-> Cardinality(needed),
+                           choices |-> chs])
+FinishRun(mode) ==
+  /\ phase.st = "run"
+  /\ phase.needed \subseteq done
+  /\ mode = "persist" => Len(graph) + NB(sig.ch) <= MaxTasks + 4
+  /\ phase' = Idle
+  /\ EndRun(mode, phase.sch, store, phase.needed, choices)
   /\ UNCHANGED <<done, store, nexec, choices>>
+
+\* the synchronous scheduler: the lowest ready task first; tasks are numbered in creation
+\* order, so this is the ascending order of the needed tasks.  Explored as one step.
+RECURSIVE RunSeq(_, _)
+RunSeq(st, ts) == IF ts = <<>> THEN st
+                  ELSE RunSeq(Put(st, graph[Head(ts)].key, ExecIn(st, Head(ts))), Tail(ts))
+RunSync(mode) ==
+  /\ "sync" \in Scheds
+  /\ phase.st = "build" /\ NRuns < MaxRuns
+  /\ sig.back = "dask"
+  /\ mode = "persist" => Len(graph) + NB(sig.ch) <= MaxTasks + 4
+  /\ LET needed == Anc(graph, BlockTasks(sig))
+         st == RunSeq(<<>>, SortSet(needed))
+     IN /\ store' = st /\ done' = needed /\ nexec' = nexec + Cardinality(needed)
+        /\ choices' = [j \in 1..Cardinality(needed) |-> 0]
+        /\ EndRun(mode, "sync", st, needed, choices')
+  /\ UNCHANGED phase
 
 Next ==
   \/ \E o \in Ops : Transform(o) \/ Container(o)
   \/ \E sc \in Scheds : StartRun(sc)
-  \/ \E m \in {"compute", "persist", "asarray"} : RunNumpy(m) \/ FinishRun(m)
+  \/ \E m \in {"compute", "persist", "asarray"} : RunNumpy(m) \/ FinishRun(m) \/ RunSync(m)
   \/ \E t \in 1..Len(graph) : RunTask(t)
 Spec == Init /\ [][Next]_vars
 
@@ -671,35 +693,37 @@ RefusalStep(op, a, refused, pre) ==
   refused => pre.back = "dask" /\ \E ax \in FftAxes(op, a) : Len(pre.ch[ax]) > 1
 
 LastKind == IF hist' # hist THEN hist'[Len(hist')].kind ELSE "internal"
-Lazy == [][(hist' # hist => LazyStep(LastKind, nexec, nexec')) /\ (done' # done => phase.st = "run" \/ phase'.st = "run")]_vars
+Lazy == [][/\ (hist' # hist => LazyStep(LastKind, nexec, nexec'))
+           /\ (done' # done => phase.st = "run" \/ phase'.st = "run" \/ LastKind = "run")]_vars
 LazyDone == [][(LastKind \in {"transform", "container"}) => done' = done]_vars
 StaysDask == [][hist' # hist => /\ StaysDaskStep(LastKind, Summary(sig), Summary(sig'))
                                 /\ NumpyStaysNumpyStep(LastKind, Summary(sig), Summary(sig'))]_vars
 ContainerOnly ==
   [][/\ (hist' # hist => ContainerOnlyStep(LastKind, Summary(sig), Summary(sig')))
      /\ ((hist' # hist /\ LastKind = "container") => sig'.val = sig.val /\ sig'.back = "dask")
-     /\ (phase.st = "run" /\ phase'.st = "build" =>            \* the end of a run
+     /\ ((hist' # hist /\ LastKind = "run") =>                 \* the end of a run
            LET mode == hist'[Len(hist')].op
            IN /\ ContainerOnlyStep("run", Summary(sig), Summary(sig'))
               /\ sig'.val = sig.val
-              /\ sig'.back = (IF mode = "compute" THEN "np" ELSE "dask")
+              /\ sig'.back = (IF mode = "compute" \/ sig.back = "np" THEN "np" ELSE "dask")
               /\ (mode # "compute" => sig'.ch = sig.ch))]_vars
 RefusalsLegit == \A j \in 1..Len(hist) : RefusalStep(hist[j].op, hist[j].a, hist[j].refused, hist[j].pre)
 
 \* the blocks of a Dask-backed signal denote the value NumPy computes; a computed signal holds it
 SameAsNumpy ==
-  /\ sig.back = "dask" =>
+  /\ sig.back = "np" => sig.data = sig.val
+  /\ (sig.back = "dask" /\ phase.st # "run") =>
        /\ IsGrid(sig.ch, sig.sh)
        /\ \A b \in BlockSet(sig.ch) :
             LET t == graph[sig.blk[b]]
             IN /\ t.osh = BSh(sig.ch, b)
                /\ \A l \in Idx(t.osh) : t.den[l] = sig.val[V3Add(BOff(sig.ch, b), l)]
-  /\ (phase.st = "run" /\ phase.needed \subseteq done) => Assembled = sig.val
+  /\ (phase.st = "run" /\ phase.needed \subseteq done) => AssembledIn(store) = sig.val
 \* every executed task's location holds that task's value, in every order of execution
 OrderIndependent ==
-  phase.st = "run" => \A t \in done : graph[t].key \in DOMAIN store /\ store[graph[t].key] = graph[t].den
+  \A t \in done : graph[t].key \in DOMAIN store /\ store[graph[t].key] = graph[t].den
 \* structural form of the same: a key names one computation
-KeysSound == \A i, j \in 1..Len(graph) : graph[i].key = graph[j].key => graph[i].den = graph[j].den
+KeysSound == phase.st # "run" => \A i, j \in 1..Len(graph) : graph[i].key = graph[j].key => graph[i].den = graph[j].den
 TypeOK ==
   /\ sig.back \in {"np", "dask"}
   /\ phase.st \in {"build", "run", "err"}
